@@ -113,6 +113,10 @@ type Runner struct {
 	Steps   int
 	Panics  int
 	Hangs   int
+	// GetStall > 0: up to StallsLeft Gets (without an injected failure) are read by a slow consumer
+	GetStall   time.Duration
+	StallsLeft int
+	Stalled    int
 }
 
 const waitLimit = 10 * time.Second
@@ -742,11 +746,18 @@ func (rn *Runner) doGet(in Input) {
 	gs := &getStream{ctx: context.Background(), failAfter: -1}
 	if in.FailAfter != nil {
 		gs.failAfter = *in.FailAfter
+	} else if rn.GetStall > 0 && rn.StallsLeft > 0 {
+		// a slow but connected consumer: must still receive every entry
+		gs.stallAt, gs.stall = 1, rn.GetStall
 	}
 	ch := make(chan error, 1)
 	go func() { ch <- rn.srv.Get(gr, gs) }()
 	select {
 	case err := <-ch:
+		if gs.stalled {
+			rn.StallsLeft--
+			rn.Stalled++
+		}
 		entries := []map[string]any{}
 		bad := ""
 		for _, r := range gs.got {
